@@ -36,6 +36,8 @@ def write_readme(sdir, results):
             continue
         r = results.get(n, {})
         cb = ", ".join(r.get("caught_by", [])) or "-"
+        if meta.get("superseded"):
+            cb += " (on its base commit; superseded by an upstream fix)"
         esc = lambda x: str(x).replace("|", "\\|").replace("\n", " ")[:260]
         lines.append(f"| {n} | {meta.get('property')} | {esc(meta.get('what'))} | {esc(meta.get('needs'))} | {cb} |")
     open(os.path.join(sdir, "README.md"), "w").write("\n".join(lines) + "\n")
@@ -74,6 +76,10 @@ def main():
         d = os.path.join(sdir, n)
         meta = json.load(open(os.path.join(d, "meta.json")))
         target = meta["property"]
+        if meta.get("superseded"):
+            print(n, "superseded (kept for the record, not applied):", meta["superseded"][:80])
+            results.setdefault(n, {"property": target})["superseded"] = True
+            continue
         checks = ALL if all_checks else [target]
         repo = REPO
         if scratch:
@@ -128,7 +134,7 @@ def main():
         # rebuild against the clean tree so that caches are warm and nothing from a mutant lingers
         sh([os.path.join(ROOT, "setup.sh")], cwd=ROOT)
     write_readme(sdir, results)
-    miss = [n for n in names if not results.get(n, {}).get("caught_by_target")]
+    miss = [n for n in names if not results.get(n, {}).get("caught_by_target") and not results.get(n, {}).get("superseded")]
     print("not caught by the target check:", miss)
     return 0
 
